@@ -892,6 +892,15 @@ def apply_to_model(sess):
         if ops[oi]["k"] == "reg":
             sp = model.spans.get(c["block"])
             if sp is None:
+                # a scope designates blocks the module has when the rewrite
+                # starts; code added by the same rewrite is not among them
+                scope = ops[oi]["scope"]
+                sig = {"scope": scope["t"], "pos": scope.get("pos") or scope.get("bpos"), "fpos": scope.get("fpos"), "layout_reordered": False, "new_block": True}
+                wit = {"op": oi, "scope": scope, "block": "a block created by this rewrite"}
+                if sess.armed == "C07":
+                    raise core.Violation("C07", "invoked-elsewhere", wit, sig)
+                if sess.armed == "C01":
+                    raise core.Violation("C01", "patch-duplicated", wit, {"via": "scope", **sig})
                 raise core.Desync("scope-based patch invoked for a block that did not exist at the start of the session")
             mods.append(((model.section_order.index(sp.sect), _unit_rank(model, sp), sp.start), c["offset"], sess.reg_id[oi], oi, c["block"], 0, c))
     mods.sort(key=lambda x: (x[0], x[1], x[2], x[3]))
